@@ -55,6 +55,7 @@ func vhSetClocks(d *vhDag, localHead int) (E, C uint64) {
 var vhDeepShapes = [][][]int{
 	{{}, {0}, {0}, {1, 2}, {1}},            // merge M(A,B) on one side, C on top of A on the other
 	{{}, {0}, {0}, {1, 2}, {1}, {3, 4}},    // two stacked merges: H(M(A,B), X) with X a child of A
+	{{}, {0}, {0}, {1, 2}, {3}},            // a plain commit on top of a merge commit
 	{{}, {0}, {0}, {2}, {3}, {1, 4}},       // branch lengths 1 vs 3, already merged
 	{{}, {0}, {0}, {1, 2}, {2, 1}, {3}},    // both sides merged the same heads, one moved on
 	{{}, {0}, {1}, {0}, {2, 3}, {3}, {4, 5}}, // merge of a merge
